@@ -8,7 +8,7 @@ def optN(x):
 
 
 def is_b(c):
-    return len(c) > 5 and c[5] == "B"
+    return len(c) > 5 and c[5] in ("B", "BR")
 
 
 def spur(c):
@@ -26,7 +26,7 @@ class C19(Plugin):
     impl_jobs = 4
     design_ref = "DESIGN.md 4/C19, 3.8"
     rule = ("case = (duration d, delay before the first poll p0, inner completion time ti or never, inner result, handover: first poll by a throw-away waker and then driven by another task, spurious polls: further instants, in any order and number, at which the driving task polls the future although neither the inner future nor the deadline woke it) through the "
-            "public TimeoutLayer around a scripted inner service under tokio's paused clock (and, for a grid of durations incl. zero, through Client::builder().with_timeout over a pooled duplex transport: result and instant only); observed: result, resolution time, "
+            "public TimeoutLayer around a scripted inner service under tokio's paused clock (and, for a grid of durations incl. zero, through Client::builder().with_timeout over a pooled duplex transport, without and with a followed redirect whose hops together take ti: result and instant only); observed: result, resolution time, "
             "instant at which the inner future was dropped; non-trivial = ti within 2 ms of d or p0 > 0; distinct = distinct tuples")
     trusted = ["modelled (not verified): Timeout::call, TimeoutFuture::poll", "oracle O4: tokio paused clock at 1 ms granularity"]
     assumptions = ["the executor polls the future when its waker fires (tokio current-thread runtime)",
@@ -55,6 +55,12 @@ class C19(Plugin):
             for ti in (None, 0, 3, 7, 30):
                 if ti is None or ti != d and not (d == 0 and ti == 0):
                     cases.append([d, 0, ti, ["O", 7], 0, "B"])
+        # ... and with the standard redirect policy on, against a handler that redirects `/` (after ti/2) to `/next` (rest of ti):
+        # the deadline covers the whole request as the caller issued it, all hops together (ti = total time; ties with d excluded)
+        for d in (1, 5, 20):
+            for ti in (None, 0, 4, 8, 9, 16, 30, 38):
+                if ti is None or (ti != d and ti // 2 != d):
+                    cases.append([d, 0, ti, ["O", 7], 0, "BR"])
         n = 500 if tier == "quick" else 20000
         for _ in range(n):
             d = rng.randint(0, 50)
@@ -73,7 +79,7 @@ class C19(Plugin):
 
     def impl_line(self, c):
         d, p0, ti, r = c[:4]
-        tail = " B" if is_b(c) else (" S" + ",".join(str(x) for x in spur(c)) if spur(c) else "")
+        tail = (" " + c[5]) if is_b(c) else (" S" + ",".join(str(x) for x in spur(c)) if spur(c) else "")
         return f"{d} {p0} {'-' if ti is None else ti} {r[0]}{r[1]} {c[4] if len(c) > 4 else 0}" + tail
 
     def parse_obs(self, c, line):
